@@ -1,9 +1,147 @@
 import Driver.Util
-/-! driver ops of C15 (prefix `c15.`); filled in by the C15 work -/
+import Model.Dnssec
+import Generated.C15
+/-! driver ops of C15 (prefix `c15.`).
+
+Syntax of composite tokens (no spaces inside a token):
+  field    `r<hex>` (opaque octets, `r-` empty) | `n<name>`          name as in `Driver.Util.parseName`
+  rdata    fields joined by `/`; `_` = no field
+  windows  `w:hex;w:hex`
+  node     `name|t1,t2,…`                     (sign zone)
+  zmnode   `name|rds|rds…`, rds = `type:covers:class:ttl:rdata~rdata…`   (zonemd)
+-/
 namespace Driver
-open Model
+open Model Model.Dnssec
+
+def parseField (s : String) : Option Field :=
+  match s.toList with
+  | 'r' :: rest => (ofHex (String.ofList rest)).map Field.raw
+  | 'n' :: rest => (parseName (String.ofList rest)).map Field.name
+  | _ => none
+
+def parseRdata (s : String) : Option Rdata :=
+  if s = "_" then some [] else (splitOnChar s '/').mapM parseField
+
+def showDErr {α} (f : α → String) : Except DErr α → String
+  | .ok a => "ok " ++ f a
+  | .error e => "err " ++ e.toString
+
+def parseNatList (s : String) : Option (List Nat) :=
+  if s = "-" then some [] else (splitOnChar s ',').mapM String.toNat?
+
+def showWindows (ws : List (Nat × Bytes)) : String :=
+  if ws.isEmpty then "-" else ";".intercalate (ws.map fun w => toString w.1 ++ ":" ++ toHexP w.2)
+
+def parseZNode (s : String) : Option ZNode :=
+  match splitOnChar s '|' with
+  | [n, ts] => do
+    let n ← parseName n
+    let ts ← parseNatList ts
+    some { name := n, types := ts }
+  | _ => none
+
+def parseRds (s : String) : Option ZRdataset :=
+  match splitOnChar s ':' with
+  | [ty, cov, cls, ttl, rds] => do
+    let ty ← ty.toNat?; let cov ← cov.toNat?; let cls ← cls.toNat?; let ttl ← ttl.toNat?
+    let rds ← (splitOnChar rds '~').mapM parseRdata
+    some { rdtype := ty, covers := cov, rdclass := cls, ttl := ttl, rdatas := rds }
+  | _ => none
+
+def parseZMNode (s : String) : Option ZMNode :=
+  match splitOnChar s '|' with
+  | n :: rest => do
+    let n ← parseName n
+    let rs ← rest.mapM parseRds
+    some { name := n, rdatasets := rs }
+  | _ => none
+
+def showEvt : Evt → String
+  | .sign n ty => "S:" ++ showName n ++ ":" ++ toString ty
+  | .nsec o n ws => "N:" ++ showName o ++ ":" ++ showName n ++ ":" ++ showWindows ws
+
+def nsecConsts : NsecConsts :=
+  { tNS := ConstsC15.typeNS, tDS := ConstsC15.typeDS, tRRSIG := ConstsC15.typeRRSIG, tNSEC := ConstsC15.typeNSEC }
+
+/-- a toy hash the harness substitutes for SHA-1 in `dns.dnssec` during the NSEC3 correspondence
+(the model takes the hash as a parameter; any computable function shared by both sides will do) -/
+def toyHash (n : Nat) (data : Bytes) : Bytes :=
+  let s := data.foldl (fun s b => (s * 31 + b + 1) % 4294967296) (19088743 + n)
+  let rec go (k : Nat) (s : Nat) (acc : Bytes) : Bytes :=
+    match k with
+    | 0 => acc
+    | k + 1 =>
+      let s' := (s * 1103515245 + 12345) % 2147483648
+      go k s' (acc ++ [s' / 65536 % 256])
+  go n s []
+
+def parseLastVariant (s : String) : Option LastVariant :=
+  if s = "shipped" then some .asShipped else if s = "intended" then some .intended else none
+
+def parseSignerVariant (s : String) : Option SignerVariant :=
+  if s = "shipped" then some .asShipped else if s = "intended" then some .intended else none
 
 def handleC15 : List String → Option String
+  | ["c15.digest", cls, ty, origin, rd, canon] => do
+    let cls ← cls.toNat?; let ty ← ty.toNat?
+    let origin ← parseOptName origin
+    let rd ← parseRdata rd
+    let canon ← parseBool canon
+    some (showDErr toHexP (if canon then toDigestable ConstsC15.canonTable cls ty rd origin else toWirePlain rd origin))
+  | ["c15.namedigest", n, origin] => do
+    let n ← parseName n
+    let origin ← parseOptName origin
+    some (showDErr toHexP (nameDigestable n origin))
+  | ["c15.keyid", w] => do
+    let w ← ofHex w
+    some s!"ok {keyId ConstsC15.algRSAMD5 w}"
+  | "c15.rrsigdata" :: v :: tc :: alg :: labels :: ottl :: exp :: inc :: tag :: signer :: origin :: rrname :: rdtype :: rdclass :: rds => do
+    let v ← parseSignerVariant v
+    let tc ← tc.toNat?; let alg ← alg.toNat?; let labels ← labels.toNat?; let ottl ← ottl.toNat?
+    let exp ← exp.toNat?; let inc ← inc.toNat?; let tag ← tag.toNat?
+    let signer ← parseName signer
+    let origin ← parseOptName origin
+    let rrname ← parseName rrname
+    let rdtype ← rdtype.toNat?; let rdclass ← rdclass.toNat?
+    let rds ← rds.mapM parseRdata
+    let sig : RRSig := { typeCovered := tc, algorithm := alg, labels := labels, originalTtl := ottl,
+                         expiration := exp, inception := inc, keyTag := tag, signer := signer }
+    some (showDErr toHexP (rrsigData v ConstsC15.canonTable sig origin rrname rdtype rdclass rds))
+  | ["c15.ds", name, key, dt, deny] => do
+    let name ← parseName name
+    let key ← ofHex key
+    let dt ← dt.toNat?
+    let deny ← parseNatList deny
+    some (showDErr (fun (p : Bytes × Bytes) => toHexP p.1 ++ " " ++ toHexP p.2)
+      (makeDsParts ConstsC15.algRSAMD5 deny name key dt))
+  | ["c15.nsec3", name, salt, iters, alg] => do
+    let name ← parseName name
+    let salt ← ofHex salt
+    let iters ← iters.toNat?
+    let alg ← alg.toNat?
+    some (showDErr (fun cs => String.ofList (cs.map Char.ofNat)) (nsec3Hash (toyHash 20) name salt iters alg))
+  | ["c15.bitmap", ts] => do
+    let ts ← parseNatList ts
+    let ws := fromRdtypes ts
+    some ("ok " ++ showWindows ws ++ " " ++ toHexP (bitmapWire ws))
+  | "c15.signzone" :: v :: origin :: signer :: nodes => do
+    let v ← parseLastVariant v
+    let origin ← parseName origin
+    let signer ← parseBool signer
+    let nodes ← nodes.mapM parseZNode
+    let evts := signZoneNsec nsecConsts v origin nodes signer
+    some ("ok " ++ (if evts.isEmpty then "-" else " ".intercalate (evts.map showEvt)))
+  | ["c15.nsecrdata", next, origin, ts] => do
+    let next ← parseName next
+    let origin ← parseOptName origin
+    let ts ← parseNatList ts
+    some (showDErr toHexP (nsecRdata next origin (fromRdtypes ts)))
+  | "c15.zonemd" :: origin :: rel :: alg :: scheme :: nodes => do
+    let origin ← parseName origin
+    let rel ← parseBool rel
+    let alg ← alg.toNat?; let scheme ← scheme.toNat?
+    let nodes ← nodes.mapM parseZMNode
+    some (showDErr toHexP (zonemdCompute ConstsC15.zonemdHashes ConstsC15.typeZONEMD ConstsC15.canonTable origin rel alg scheme nodes))
   | _ => none
 
 end Driver
